@@ -218,8 +218,9 @@ def _run_check(pid, tier, base_seed, jobs, meta, scratch, t0):
         "violations": len(confirmed),
     }
     bad = validate_evidence(evidence)
-    os.makedirs(os.path.join(VERIF_DIR, "evidence"), exist_ok=True)
-    with open(os.path.join(VERIF_DIR, "evidence", f"{pid}.json"), "w") as f:
+    odir = os.path.join(os.environ.get("VERIF_OUT_DIR") or VERIF_DIR, "evidence")
+    os.makedirs(odir, exist_ok=True)
+    with open(os.path.join(odir, f"{pid}.json"), "w") as f:
         json.dump(evidence, f, indent=1, sort_keys=True)
         f.write("\n")
 
